@@ -124,6 +124,7 @@ type Exec struct {
 	netFrom     [][]*term.T
 	netWriteAt  []*term.T
 	netWriteEv  [][2]int // goroutine and event number of every write
+	charmapObjs map[string]*Object
 	evSeq       int
 	mutexFIFO   bool
 	netFailFrom int
@@ -468,6 +469,7 @@ func (e *Exec) resetPath(prefix []Decision) {
 	e.netFrom = nil
 	e.netWriteAt, e.netFailFrom, e.netAttempts = nil, -1, 0
 	e.netWriteEv, e.evSeq, e.mutexFIFO = nil, 0, false
+	e.charmapObjs = nil
 	e.realDial = false
 	for _, d := range prefix {
 		if d.Uncertain {
